@@ -683,6 +683,14 @@ def split_inline_box(context, box, position_x, max_x, bottom_space, skip_stack,
     right_spacing = (
         box.padding_right + box.margin_right + box.border_right_width)
     content_box_left = position_x
+    if isinstance(box, boxes.InlineBox):
+        # Children are translated by the start spacing after they are laid
+        # out, keep room for it.
+        if is_start or box.style['box_decoration_break'] == 'clone':
+            if box.style['direction'] == 'ltr':
+                max_x -= left_spacing
+            else:
+                max_x -= right_spacing
 
     children = []
     waiting_children = []
